@@ -97,7 +97,7 @@ def main():
             if os.path.exists(os.path.join(d, "patch.diff")) and os.path.exists(os.path.join(d, "meta.json")):
                 dirs.append(d)
     rows = []
-    with cf.ThreadPoolExecutor(max_workers=8) as ex:
+    with cf.ThreadPoolExecutor(max_workers=14) as ex:
         for row in ex.map(work, dirs):
             rows.append(row)
             print(row)
